@@ -424,6 +424,12 @@ class SimNetwork:
         except EndpointBroken:
             pass
 
+    def _server_knows_newer(self, addr):
+        conn = self.sim.server.conn
+        if conn is None:
+            return False
+        return any(p.addr[0] == addr[0] and p.addr[1] > addr[1] for p in conn._network_paths)
+
     def _arrive(self, d, copy_index):
         self.in_flight -= 1
         ep = self.routes.get(d.dst)
@@ -434,6 +440,10 @@ class SimNetwork:
             # during the adversarial phase a rebound address is dead (unless the run drew a NAT that keeps
             # its former mappings: "old_addr_alive")
             ep = self.sim.client
+            if self.sim.profile.get("strict_heal") and self._server_knows_newer(d.dst):
+                # ... but not for a server that has already processed a packet from a newer address of
+                # this client: it knows better, sending to the old mapping is its own doing
+                ep = None
         if ep is None:
             self.k.trace("noroute", d.id)
             self.fired["noroute"] += 1
